@@ -1,7 +1,9 @@
 (** Properties/C20.v — a page imported into another document is equal and self-contained.
     Only statements and `exact`; the proofs are in Import/{ImportProofs,Theorems,PageProofs}.v. *)
 From PdfV Require Import Base.Prelude Lex.Lexer Syn.Prim Gen.Generated
-     Import.Model Import.Spec Import.ImportProofs Import.Theorems Import.PageProofs.
+     Import.Model Import.Spec Import.ImportProofs Import.Theorems Import.PageProofs Import.PagePresent Import.GraphIso Import.Target.
+From PdfV Require Storage.Prim Storage.Model Storage.Proofs Storage.Builder Storage.Syntax Storage.Reload.
+From PdfV Require Syn.Serialize Syn.SerProofs Syn.Spells Syn.Parser.
 
 (** closure: every reference reachable from the imported roots in the new document is defined there *)
 Theorem C20_closed : forall fetch g fuel roots rs s,
@@ -38,6 +40,112 @@ Proof.
   intros fetch g fuel roots rs s H. split; [exact (import_reachable_only fetch g fuel roots rs s H)|exact (import_reachable_all fetch g fuel roots rs s H)].
 Qed.
 Print Assumptions C20_reachable_only.
+
+(** clause (a) in one statement: the memo is an isomorphism of rooted graphs — a one-to-one correspondence between what
+    the roots reach in the source and what the new roots reach in the new document (which is all of it), roots to roots,
+    corresponding objects equal up to the renaming ([iso], and as a function: [rename]) — cycles and shared objects included *)
+Theorem C20_graph_iso : forall fetch g fuel roots rs s,
+  import_roots fetch g fuel roots st0 = Ok (rs, s) ->
+  NoDup (map fst (memo s)) /\ NoDup (map snd (memo s)) /\
+  (forall r, reach g roots r <-> exists x, lookup (memo s) r = Some x) /\
+  (forall x, reach (out s) (new_refs rs) x <-> exists r, lookup (memo s) r = Some x) /\
+  (forall i, In i (map fst (out s)) <-> exists r, lookup (memo s) r = Some (i, 0)) /\ NoDup (map fst (out s)) /\
+  Forall2 (root_rel (memo s)) roots rs /\
+  (forall r x, lookup (memo s) r = Some x ->
+     exists v v', resolve g r = Ok v /\ resolve (out s) x = Ok v' /\ iso fetch (memo s) v v' /\ rename fetch (memo s) v = Some v').
+Proof. exact import_graph_iso. Qed.
+Print Assumptions C20_graph_iso.
+
+(** edges correspond in both directions *)
+Theorem C20_edges : forall fetch g fuel roots rs s,
+  import_roots fetch g fuel roots st0 = Ok (rs, s) ->
+  forall r x r2, lookup (memo s) r = Some x ->
+  forall v v', resolve g r = Ok v -> resolve (out s) x = Ok v' ->
+    (has_ref v r2 -> exists x2, lookup (memo s) r2 = Some x2 /\ has_ref v' x2) /\
+    (forall x2, has_ref v' x2 -> exists r3, lookup (memo s) r3 = Some x2 /\ has_ref v r3).
+Proof. exact import_edges. Qed.
+Print Assumptions C20_edges.
+
+(** the copy is determined by the original and the reference map *)
+Theorem C20_copy_determined : forall fetch m v a b, iso fetch m v a -> iso fetch m v b -> a = b.
+Proof. exact iso_det. Qed.
+Print Assumptions C20_copy_determined.
+
+(** clause (b): a stream of the source is a stream of the copy with the bytes the source resolver returns for it, the same
+    keys in the same order and entry-wise equal values; a dictionary likewise *)
+Theorem C20_stream_equal : forall fetch g fuel roots rs s,
+  import_roots fetch g fuel roots st0 = Ok (rs, s) ->
+  forall r x d i gn st ln, lookup (memo s) r = Some x -> resolve g r = Ok (PStream d i gn st ln) ->
+    exists d' data, fetch i gn st ln = Ok data /\ resolve (out s) x = Ok (PStreamData d' data) /\
+                    map fst d' = map fst d /\ Forall2 (iso_entry fetch (memo s)) d d'.
+Proof. exact import_stream_equal. Qed.
+Print Assumptions C20_stream_equal.
+
+Theorem C20_dict_equal : forall fetch g fuel roots rs s,
+  import_roots fetch g fuel roots st0 = Ok (rs, s) ->
+  forall r x d, lookup (memo s) r = Some x -> resolve g r = Ok (PDict d) ->
+    exists d', resolve (out s) x = Ok (PDict d') /\ map fst d' = map fst d /\ Forall2 (iso_entry fetch (memo s)) d d'.
+Proof. exact import_dict_equal. Qed.
+Print Assumptions C20_dict_equal.
+
+(** clause (d): the importer's updater is the storage model of C09/C10 — reserving an id is [promise], storing the copy is
+    [fulfill], starting from [Storage::empty] *)
+Theorem C20_target_steps :
+  target false st0 = Storage.Builder.empty_storage /\
+  (forall c s m', 1 <= next s -> Storage.Model.promise (target c s) = (target c (mkSt m' (next s + 1) (out s)), (next s, 0))) /\
+  (forall c s m' id v, 1 <= id -> id < next s -> ~ In id (map fst (out s)) ->
+     Storage.Model.fulfill (target c s) (id, 0) v = Ok (target c (mkSt m' (next s) ((id, v) :: out s)), (id, 0))).
+Proof. split; [exact target_st0|split; [exact target_reserve|exact target_store]]. Qed.
+Print Assumptions C20_target_steps.
+
+(** … the state it leaves is well-formed in C09's sense (every C09 theorem applies to its save), and no promise is left
+    open: every reserved number holds the object the importer stored *)
+Theorem C20_target_valid : forall fetch g fuel roots rs s,
+  import_roots fetch g fuel roots st0 = Ok (rs, s) ->
+  forall c, Storage.Proofs.wf_st (target c s) /\
+    lenN (Storage.Model.refs (target c s)) = next s /\
+    forall i, 1 <= i -> i < next s ->
+      nthN (Storage.Model.refs (target c s)) i = Some Storage.Model.XPromised /\
+      exists v, Storage.Model.clookup (Storage.Model.changes (target c s)) i = Some (v, 0) /\ g_find (out s) i = Some v.
+Proof.
+  intros fetch g fuel roots rs s H c. split; [exact (import_target_wf fetch g fuel roots rs s H c)|].
+  split; [exact (target_len fetch g fuel roots rs s H c)|exact (import_no_open_promise fetch g fuel roots rs s H c)].
+Qed.
+Print Assumptions C20_target_valid.
+
+(** … and re-loadable: after C09's save (shared serialiser) any state over the saved bytes whose table is the saved table
+    (what C09_load_table shows [load] to return) reads under every new number the source object with its references
+    renamed — for source objects of C04's storable domain within the parser's nesting limit … *)
+Theorem C20_reload_object : forall fetch g fuel roots rs s,
+  import_roots fetch g fuel roots st0 = Ok (rs, s) -> next s < 18446744073709551616 ->
+  forall cached member tr tr' S' S3,
+  Storage.Model.save Syn.Serialize.ser (target cached s) tr = Ok (S', tr', None) ->
+  Storage.Model.changes S3 = [] -> Storage.Model.backend S3 = Storage.Model.backend S' -> Storage.Model.start S3 = 0 ->
+  (forall i, i < lenN (Storage.Model.refs S') -> nthN (Storage.Model.refs S3) i = nthN (Storage.Model.refs S') i) ->
+  forall r x v, lookup (memo s) r = Some x -> resolve g r = Ok v ->
+    Syn.SerProofs.storable v -> Syn.Spells.vdepth v <= MAX_DEPTH ->
+    exists v', iso fetch (memo s) v v' /\ rename fetch (memo s) v = Some v' /\
+               forall g', Storage.Model.resolve Storage.Syntax.parse_obj member S3 (fst x, g') = Ok v'.
+Proof. exact import_reload_object. Qed.
+Print Assumptions C20_reload_object.
+
+(** … and a copied stream reads as a stream with the renamed dictionary whose data, read from the saved bytes, is the data
+    of the source stream *)
+Theorem C20_reload_stream : forall fetch g fuel roots rs s,
+  import_roots fetch g fuel roots st0 = Ok (rs, s) -> next s < 18446744073709551616 ->
+  forall cached member tr tr' S' S3,
+  Storage.Model.save Syn.Serialize.ser (target cached s) tr = Ok (S', tr', None) ->
+  Storage.Model.changes S3 = [] -> Storage.Model.backend S3 = Storage.Model.backend S' -> Storage.Model.start S3 = 0 ->
+  (forall i, i < lenN (Storage.Model.refs S') -> nthN (Storage.Model.refs S3) i = nthN (Storage.Model.refs S') i) ->
+  forall r x d i gn st ln, lookup (memo s) r = Some x -> resolve g r = Ok (PStream d i gn st ln) ->
+    Syn.SerProofs.storable (PDict d) -> Syn.Spells.vdepth (PDict d) <= MAX_DEPTH ->
+    dict_get Syn.Parser.key_Length d = Some (PInt (Z.of_N ln)) ->
+    exists d' data, fetch i gn st ln = Ok data /\ Forall2 (iso_entry fetch (memo s)) d d' /\ map fst d' = map fst d /\
+      (lenN data = ln -> forall g', exists st',
+         Storage.Model.resolve Storage.Syntax.parse_obj member S3 (fst x, g') = Ok (PStream d' (fst x) 0 st' ln) /\
+         Storage.Prim.raw_data (Storage.Model.backend S3) (PStream d' (fst x) 0 st' ln) = Some data).
+Proof. exact import_reload_stream. Qed.
+Print Assumptions C20_reload_stream.
 
 (** termination on every finite graph, cyclic or not, within the bound the runners use; and no panic:
     the outcome is a value or an error *)
@@ -87,6 +195,18 @@ Theorem C20_page_pruned : forall fetch g fuel p s po s' P,
 Proof. exact clone_page_inv. Qed.
 Print Assumptions C20_page_pruned.
 
+(** clause (c) for a whole page: every resource an operation names (in a category of the code's table) and the page's
+    resources define is present under that name as a copy of the source's value, and the new page's resources hold nothing else *)
+Theorem C20_page_present : forall fetch g fuel p s po s' P,
+  clone_page fetch g fuel p s = Ok (po, s') -> wf fetch g (fun _ => True) s -> pend s P ->
+  (forall op name cat v, In (UName op name) (pg_uses p) -> cat_of_op op = Some cat ->
+     dict_get name (cat_get (pg_res p) cat) = Some v ->
+     exists v0 v', src_value g cat v v0 /\ dict_get name (cat_get (po_res po) cat) = Some v' /\ iso fetch (memo s') v0 v') /\
+  (forall cat name v', dict_get name (cat_get (po_res po) cat) = Some v' ->
+     exists v v0, dict_get name (cat_get (pg_res p) cat) = Some v /\ src_value g cat v v0 /\ iso fetch (memo s') v0 v').
+Proof. exact clone_page_present. Qed.
+Print Assumptions C20_page_present.
+
 (** the tables regenerated from the Rust sources are the ones the theorems are about *)
 Theorem C20_tables :
   forallb (fun x => existsb (pair_eqb x) spec_op_cats) import_op_cats = true /\
@@ -118,6 +238,13 @@ Example C20_cycle_is_imported :
   import_roots (fun _ _ _ _ => Err E_REF) self_loop 5 [(1, 0)] st0
   = Ok ([PRef 1 0], mkSt [((1, 0), (1, 0))] 2 [(1, PDict [([78], PRef 1 0)])]).
 Proof. exact self_loop_imported. Qed.
+Example C20_diamond_is_imported :
+  import_roots (fun _ _ _ _ => Err E_REF) diamond (fuel_for diamond [PRef 4 0]) [(4, 0)] st0
+  = Ok ([PRef 1 0],
+        mkSt [((6, 0), (4, 0)); ((7, 0), (3, 0)); ((5, 0), (2, 0)); ((4, 0), (1, 0))] 5
+             [(1, PArr [PRef 2 0; PRef 4 0]); (4, PDict [([83], PRef 3 0)]); (2, PDict [([83], PRef 3 0)]);
+              (3, PStreamData [([75], PRef 1 0)] [100; 97; 116; 97])]).
+Proof. exact diamond_imported. Qed.
 Example C20_font_is_copied :
   clone_page (fun _ _ _ _ => Err E_REF) [(7, PDict [([84], PName [70])])] 10
              (mkPage [UName [84;101;120;116;70;111;110;116] [70;49]] [([70;111;110;116], [([70;49], PRef 7 0)])] []) st0
